@@ -350,7 +350,9 @@ func (s *SourceControl) ConfigurePulseLengths(sizes SizeObject, reply *bool) err
 // Start will identify the source given by sourceName and Sample then Start it.
 func (s *SourceControl) Start(sourceName *string, reply *bool) error {
 	*reply = false
+	verifPoint("sc.start.enter")
 	if s.isSourceActive {
+		verifPoint("sc.start.refused")
 		return fmt.Errorf("already have active source, do not start")
 	}
 	name := strings.ToUpper(*sourceName)
@@ -388,9 +390,11 @@ func (s *SourceControl) Start(sourceName *string, reply *bool) error {
 	if err := Start(s.ActiveSource, s.queuedRequests, s.status.Npresamp, s.status.Nsamples); err != nil {
 		s.status.Running = false
 		s.isSourceActive = false
+		verifPoint("sc.start.failed")
 		return err
 	}
 	s.isSourceActive = true
+	verifPoint("sc.flagOn")
 	s.status.SamplePeriod = s.ActiveSource.SamplePeriod()
 	s.status.Nchannels = s.ActiveSource.Nchan()
 	s.status.ChanGroups = s.ActiveSource.ChanGroups()
@@ -405,7 +409,9 @@ func (s *SourceControl) Start(sourceName *string, reply *bool) error {
 
 // Stop stops the running data source, if any
 func (s *SourceControl) Stop(dummy *string, reply *bool) error {
+	verifPoint("sc.stop.enter")
 	if !s.isSourceActive {
+		verifPoint("sc.stop.notActive")
 		return fmt.Errorf("no source is active")
 	}
 	log.Printf("Stopping data source\n")
@@ -424,6 +430,7 @@ func (s *SourceControl) handlePossibleStoppedSource() {
 	if s.isSourceActive && !s.ActiveSource.Running() {
 		s.status.Running = false
 		s.isSourceActive = false
+		verifPoint("sc.refreshed")
 		s.clientUpdates <- ClientUpdate{"STATUS", s.status}
 		s.heartbeats <- Heartbeat{Running: false}
 
